@@ -265,7 +265,7 @@ impl Decider {
     }
 
     pub fn log(&mut self, f: impl FnOnce() -> String) {
-        if self.log_on && self.log.len() < 4000 {
+        if self.log_on && self.log.len() < 400_000 {
             let s = f();
             self.log.push(s);
         }
